@@ -3,6 +3,7 @@ import TFV.Drv.Net
 import TFV.Drv.Ops2
 import TFV.Drv.Tree
 import TFV.Drv.Bench
+import TFV.Drv.Estim
 open Lean
 namespace Drv
 def dispatch (op : String) (j : Json) : R Json := do
@@ -11,5 +12,6 @@ def dispatch (op : String) (j : Json) : R Json := do
   if let some r ← dispatchOps2 op j then return r
   if let some r ← dispatchTree op j then return r
   if let some r ← dispatchBench op j then return r
+  if let some r ← dispatchEstim op j then return r
   throw s!"unknown op {op}"
 end Drv
